@@ -1,7 +1,7 @@
 (* C12 — Diagnostics identify the right source location.
    ONLY the pinned statements live here; every proof is `exact <lemma>`.
    They quantify over ALL push sequences, texts, spans, call stacks and call histories. *)
-From KV.diag Require Import DiagModel DiagSpec DiagProofs DiagExcerptProofs DiagRun.
+From KV.diag Require Import DiagModel DiagSpec DiagProofs DiagExcerptProofs DiagRun DiagSpanStack.
 Open Scope N_scope.
 
 (* --- SourceMap (DebugInfo::push / get_source_span) ------------------------------------ *)
@@ -93,6 +93,32 @@ Theorem debug_prefix_line : forall pushes ip,
 Proof. exact DiagExcerptProofs.debug_prefix_line. Qed.
 Print Assumptions debug_prefix_line.
 
+(* --- span stack discipline of the compiler (abstract: the compile_* routines are not transcribed) ------- *)
+
+(* ANY tree of nodes whose scripts are locally well-bracketed (extra push_span / pop_span pairs, or a final
+   `span_stack.truncate` as in compile_chain): compile_node leaves the span stack as it found it *)
+Theorem span_stack_balanced : forall n, wf_node n -> forall st, c_stack (compile n st) = c_stack st.
+Proof. exact DiagSpanStack.span_stack_balanced. Qed.
+Print Assumptions span_stack_balanced.
+
+(* an instruction a node emits with push_op, outside any extra push_span and after any number of (well-bracketed)
+   children, is recorded with the node's OWN span *)
+Theorem op_span_owner : forall sp body tr id st,
+    direct id body -> In (id, sp) (c_rec (compile (Node sp body tr) st)).
+Proof. exact DiagSpanStack.op_span_owner. Qed.
+Print Assumptions op_span_owner.
+
+(* without the final truncate a chain-like child leaves its own span behind and the parent's next instruction carries it
+   (the planted bug "span_stack.truncate removed"; what D-predicate M2 detects on real chunks) *)
+Theorem span_leak_refuted :
+  let parent_span := mk_span 2 2 3 9 in let link_span := mk_span 3 4 3 7 in
+  let leaky_chain := Node (mk_span 3 4 3 9) (APush link_span (AOp 1 ANil)) false in
+  ~ wf_node leaky_chain
+  /\ c_rec (compile (Node parent_span (AChild leaky_chain (AOp 2 ANil)) false) (mkC [] []))
+     = [(1, link_span); (2, mk_span 3 4 3 9)].
+Proof. split; [simpl; intros [H|H]; discriminate | vm_compute; reflexivity]. Qed.
+Print Assumptions span_leak_refuted.
+
 (* --- non-vacuity -------------------------------------------------------------------------- *)
 
 (* dedup really happens and lookups between entries resolve to the earlier one *)
@@ -127,3 +153,11 @@ Example trace_example : fault_at (run_events [ECall 5; ECall 9; ECall 12]) 77 = 
 Proof. vm_compute. reflexivity. Qed.
 Example trace_caught_example : fault_at (run_events [ECall 5; ETry; ECall 9; ECall 12]) 77 = Caught [77; 12; 9].
 Proof. vm_compute. reflexivity. Qed.
+
+(* a binary op whose right operand is a two-link chain (with truncate): Add carries the BinaryOp's span *)
+Example span_stack_example :
+  let chain := Node (mk_span 3 4 3 9) (APush (mk_span 3 4 3 7) (AOp 1 (APush (mk_span 3 8 3 9) (AOp 2 ANil)))) true in
+  wf_node (Node (mk_span 2 2 3 9) (AChild chain (AOp 3 ANil)) false)
+  /\ c_rec (compile (Node (mk_span 2 2 3 9) (AChild chain (AOp 3 ANil)) false) (mkC [] []))
+     = [(1, mk_span 3 4 3 7); (2, mk_span 3 8 3 9); (3, mk_span 2 2 3 9)].
+Proof. split; [simpl; auto | vm_compute; reflexivity]. Qed.
